@@ -393,6 +393,9 @@ impl<'a> Interpreter<'a> {
                                             callable: self.callable_by_name(ident.as_str())?,
                                             value: obj,
                                         });
+                                    } else if obj.is_err() {
+                                        // a failed object stays the failure it is
+                                        stack.push(obj.into());
                                     } else {
                                         stack.push(
                                             CelValue::from_err(CelError::attribute(
